@@ -71,14 +71,19 @@ func (a *Aliases) Delete(name string) error {
 // Dump returns the complete alias table
 func (a *Aliases) Dump() map[string]Alias {
 	a.mutex.Lock()
-	dump := a.aliases
+	dump := make(map[string]Alias, len(a.aliases))
+	for name, alias := range a.aliases {
+		dump[name] = alias
+	}
 	a.mutex.Unlock()
 	return dump
 }
 
 // UpdateMap is used for auto-completions. It takes an existing map and updates it's values rather than copying data
 func (a *Aliases) UpdateMap(m map[string]bool) {
+	a.mutex.Lock()
 	for name := range a.aliases {
 		m[name] = true
 	}
+	a.mutex.Unlock()
 }
